@@ -466,6 +466,15 @@ func TestC08(t *testing.T) {
 	}
 	rapid.Check(t, func(t *rapid.T) {
 		c := genC08Case(t)
+		if rapid.IntRange(0, 3).Draw(t, "reentrant") == 1 {
+			// a call whose per-call function validates another object of the same (cached) type from inside, once or twice in the history
+			rc := &Call{S: genReenterCase(t)}
+			for k := rapid.IntRange(1, 2).Draw(t, "reentrantN"); k > 0; k-- {
+				at := rapid.IntRange(0, len(c.Ops)).Draw(t, "reentrantAt")
+				c.Ops = append(c.Ops[:at:at], append([]C08Op{{Call: rc}}, c.Ops[at:]...)...)
+			}
+			ev.Class("validation-inside-a-validation (same cached type)")
+		}
 		msg, facts := checkC08(c)
 		if facts.otherTagEarlier {
 			ev.Class("type-seen-earlier-under-another-tag")
